@@ -33,6 +33,9 @@ pub struct SenderPlan {
     pub end: End,
     /// for REP receivers: index of a message sent as a single frame (rejected by the envelope rule)
     pub reject_at: Option<usize>,
+    /// this sender is the same peer coming back: it connects, under the same announced identity,
+    /// once sender `rejoin_of` has ended its connection
+    pub rejoin_of: Option<usize>,
 }
 
 #[derive(Default)]
@@ -46,6 +49,7 @@ pub struct Shared {
     pub peers: Vec<Option<std::sync::Arc<rt::net::Conn>>>,
     pub peer_handles: Vec<Option<RawPeer>>,
     pub reply_errors: Vec<String>,
+    pub departed: Vec<bool>,
 }
 
 pub struct RecvCfg {
@@ -55,6 +59,8 @@ pub struct RecvCfg {
     pub max_senders: u64,
     pub max_msgs: u64,
     pub big: bool,
+    /// let some departing peers with an announced identity come back under it
+    pub rejoin: bool,
 }
 
 pub struct RecvOut {
@@ -109,7 +115,16 @@ pub fn draw_plans(ctx: &mut Ctx, cfg: &RecvCfg) -> Vec<SenderPlan> {
             ready_again_at: if ctx.plan(4) == 0 && nm > 0 { Some(ctx.plan(nm as u64) as usize) } else { None },
             end,
             reject_at: if cfg.kind == Kind::Rep && nm > 0 && ctx.plan(4) == 0 { Some(ctx.plan(nm as u64) as usize) } else { None },
+            rejoin_of: None,
         });
+    }
+    // some departing peers with an announced identity come back under it
+    for i in 0..(if cfg.rejoin { n } else { 0 }) {
+        let p = plans[i].clone();
+        if p.end != End::Keep && p.identity.as_ref().map(|x| !x.is_empty()).unwrap_or(false) && ctx.plan(3) == 0 {
+            let nm = 1 + ctx.plan(4) as usize;
+            plans.push(SenderPlan { shapes: (0..nm).map(|_| draw_shape(ctx, cfg.big)).collect(), start_yields: ctx.plan(6) as u32, end: End::Keep, reject_at: None, ready_again_at: None, rejoin_of: Some(i), ..p });
+        }
     }
     plans
 }
@@ -160,6 +175,7 @@ pub fn run(ctx: &mut Ctx, cfg: RecvCfg) -> RecvOut {
         let mut s = shared.borrow_mut();
         s.peers = vec![None; plans.len()];
         s.peer_handles = (0..plans.len()).map(|_| None).collect();
+        s.departed = vec![false; plans.len()];
     }
     let kind = cfg.kind;
     let sh = shared.clone();
@@ -172,6 +188,19 @@ pub fn run(ctx: &mut Ctx, cfg: RecvCfg) -> RecvOut {
             let ep = ep.clone();
             let sh = sh.clone();
             rt::task::spawn_local("sender", async move {
+                if let Some(orig) = p.rejoin_of {
+                    // wait until the first connection of this peer has ended
+                    for _ in 0..100_000 {
+                        if sh.borrow().departed[orig] {
+                            break;
+                        }
+                        rt::task::yield_now().await;
+                    }
+                    if !sh.borrow().departed[orig] {
+                        return;
+                    }
+                    rt::count("fault_peer_rejoins_same_identity");
+                }
                 for _ in 0..p.start_yields {
                     rt::task::yield_now().await;
                 }
@@ -233,6 +262,7 @@ pub fn run(ctx: &mut Ctx, cfg: RecvCfg) -> RecvOut {
                         sh.borrow_mut().peer_handles[i] = Some(peer);
                     }
                 }
+                sh.borrow_mut().departed[i] = p.end != End::Keep;
             });
         }
         if kind == Kind::Sub {
@@ -351,7 +381,8 @@ pub fn check_delivery(ctx: &mut Ctx, out: &RecvOut) {
     let mut n_reject_required = 0usize;
     for (i, exp) in sent.iter().enumerate() {
         let exp_ok: Vec<&Vec<Vec<u8>>> = exp.iter().filter_map(|e| e.as_ref()).collect();
-        if !hard_fault[i] {
+        let in_rejoin = out.plans.iter().any(|q| q.rejoin_of == Some(i)) || out.plans[i].rejoin_of.is_some();
+        if !hard_fault[i] && !in_rejoin {
             n_reject_required += exp.iter().filter(|e| e.is_none()).count();
         }
         n_reject += exp.iter().filter(|e| e.is_none()).count();
@@ -393,14 +424,38 @@ pub fn check_delivery(ctx: &mut Ctx, out: &RecvOut) {
         }
         // completeness at quiescence: everything complete on the wire was consumed, unless the
         // connection was reset (unread bytes are discarded then) or the receiver stopped
-        if got[i].len() < exp_ok.len() && !hard_fault[i] && !sh.gave_up {
+        // either connection of a peer that left and came back under its identity *while the socket
+        // still held the first connection* (it had not yet released its end when the second one
+        // appeared): only that overlap is the identity-collision finding. A peer that comes back
+        // after its old connection is completely gone must simply work.
+        let partner = out.plans.iter().position(|q| q.rejoin_of == Some(i)).or(out.plans[i].rejoin_of);
+        let peer_rejoined = match partner {
+            Some(j) => {
+                let (old, new) = if out.plans[i].rejoin_of.is_some() { (j, i) } else { (i, j) };
+                match (&sh.peers[old], &sh.peers[new]) {
+                    (Some(o), Some(n)) => {
+                        let new_first = n.dir(0).stamps.first().map(|x| x.1).unwrap_or(u64::MAX);
+                        o.side_state(1).closed.map(|c| c > new_first).unwrap_or(true)
+                    }
+                    _ => false,
+                }
+            }
+            None => false,
+        };
+        if got[i].len() < exp_ok.len() && !hard_fault[i] && !sh.gave_up && peer_rejoined {
+            // the same peer came back under its identity before the socket had consumed everything
+            // its first connection had delivered: registering the new connection replaced the old
+            // stream, unread messages and all (its own clause: see DESIGN.md 11.5)
+            ctx.violation("lost_when_peer_rejoined_under_same_identity", format!("{} peer {i} left and reconnected under the same identity; this connection carried {} complete messages, {} were delivered: the socket keys a peer's stream by identity, so one connection displaced the other (unread data of the old one, or the new one when the old one's failure is processed)", kind.name(), exp_ok.len(), got[i].len()));
+        } else if got[i].len() < exp_ok.len() && !hard_fault[i] && !sh.gave_up {
             ctx.violation("not_delivered_at_quiescence", format!("{} peer {i}: {} of {} complete messages delivered; receiver {} at quiescence; first missing {}", kind.name(), got[i].len(), exp_ok.len(), if sh.app_parked_in_recv { "parked in recv" } else { "not in recv" }, show_msg(exp_ok[got[i].len()])));
         }
     }
     if kind == Kind::Router {
         for i in 0..router_ids.len() {
             for j in 0..i {
-                if router_ids[i].is_some() && router_ids[i] == router_ids[j] {
+                let same_peer = out.plans[i].rejoin_of == Some(j) || out.plans[j].rejoin_of == Some(i);
+                if !same_peer && router_ids[i].is_some() && router_ids[i] == router_ids[j] {
                     ctx.violation("router_label_shared", format!("peers {j} and {i} share the label {}", world::hex(router_ids[i].as_ref().unwrap())));
                 }
             }
